@@ -93,7 +93,10 @@ def importsOf (nm : Names) : Ty → List (String × String)
         ("typing", "Optional") ::
           ((if (ts.filter (fun t => !isNoneTy t)).length == 1 then [] else [("typing", "Union")]) ++ importsNonNone nm ts)
       else ("typing", "Union") :: importsL nm ts
-  | .td _ _ => []
+  | .td req opt => importsF nm req ++ importsF nm opt   -- the fields of the generated classes (stubs.py, build_module_stubs)
+def importsF (nm : Names) : List (String × Ty) → List (String × String)
+  | [] => []
+  | (_, t) :: fs => importsOf nm t ++ importsF nm fs
 def importsL (nm : Names) : List Ty → List (String × String)
   | [] => []
   | t :: ts => importsOf nm t ++ importsL nm ts
@@ -143,28 +146,6 @@ end
 
 /-- two generated classes of one stub get the same name -/
 def hasNameCollision (names : List String) : Bool := names.eraseDups.length != names.length
-
-mutual
-/-- some TypedDict field has a type that needs a name the class body does not get (a typing generic, `Any`, or a
-    class from another module than builtins) -/
-def tdFieldNeedsName (nm : Names) : Ty → Bool
-  | .list t | .set t | .iterator t | .tupleOf t => tdFieldNeedsName nm t
-  | .dict k v | .ddict k v => tdFieldNeedsName nm k || tdFieldNeedsName nm v
-  | .generator y s r => tdFieldNeedsName nm y || tdFieldNeedsName nm s || tdFieldNeedsName nm r
-  | .tuple ts | .union ts => tdFieldNeedsNameL nm ts
-  | .td req opt => fieldsNeed nm req || fieldsNeed nm opt
-  | _ => false
-def tdFieldNeedsNameL (nm : Names) : List Ty → Bool
-  | [] => false
-  | t :: ts => tdFieldNeedsName nm t || tdFieldNeedsNameL nm ts
-def fieldsNeed (nm : Names) : List (String × Ty) → Bool
-  | [] => false
-  | (_, t) :: fs =>
-      (match t with
-       | .td r o => fieldsNeed nm r || fieldsNeed nm o
-       | .cls c => (nm.cls c).1 != "builtins"
-       | _ => true) || fieldsNeed nm fs
-end
 
 /-- two different modules contribute the same imported name to one stub (`from utils import B` and
     `from pkg.utils import B`): the later import shadows the earlier one -/
